@@ -152,6 +152,18 @@ def check(rng, deep):
         for internals in ({blk.name: ['Va', 'a']}, [blk.name]):
             run(f'impulse_nonlinear[{name}, internals={type(internals).__name__}]', [blk, hetblocks.hh_sim.hh], lambda: blk.impulse_nonlinear(hss, hsh, internals=internals),
                 dict(ss=hss, inputs=hsh, internals=internals), echo=('inputs',))
+        # a previous steady state (with the household's internals) re-used as the calibration of the next solve: neither it nor the old result may change
+        if name == 'sim':
+            from sequence_jacobian import simple, combine
+            mkt = getattr(hm, 'c19_mkt', None)
+            prev = blk.steady_state(cal)
+            cal2 = prev.copy()
+            cal2['r'] = 0.015
+            run('steady_state[sim, previous SteadyStateDict as calibration]', [blk], lambda: blk.steady_state(cal2), dict(calibration=cal2, previous=prev))
+            cal3 = prev.copy()
+            cal3['w'] = 1.05
+            run('solve_steady_state[sim, previous SteadyStateDict as calibration]', [blk],
+                lambda: blk.solve_steady_state(cal3, {'beta': (0.9, 0.97)}, {'A': 2.0}, solver='brentq'), dict(calibration=cal3, previous=prev))
         r_after = run(f'steady_state[{name}] after history', [blk], lambda: blk.steady_state(cald), dict(calibration=cald))
         if set(r_after.toplevel) != set(hss.toplevel) or any(abs(r_after[k] - hss[k]) > 0 for k in hss.toplevel if np.isscalar(hss[k])):
             C.push(out, dict(what='steady_state after a history of other calls differs from the initial steady_state', input=dict(kind='audit', call=f'steady_state[{name}] after history',
@@ -168,7 +180,7 @@ def oracle(ctx, hints, broken):
     return dict(evaluations=n, violations=viol,
                 rule='runtime audit of a shared-object call history (steady_state, jacobian, partial_jacobians reuse, linear/nonlinear impulses and their general-equilibrium '
                      'versions on a simple-block model, a nested solved block, a remapped solved block with its own factorisation, one-asset households with and without '
-                     'hetoutputs, internals as dict and list): deep snapshots of every argument and of the block objects (incl. function defaults) before/after, repeated-'
+                     'hetoutputs, internals as dict and list; a previous SteadyStateDict with internals re-used as the calibration of steady_state / solve_steady_state): deep snapshots of every argument and of the block objects (incl. function defaults) before/after, repeated-'
                      'call bit equality, storage sharing between results and arguments, first calls repeated after the history')
 
 
